@@ -136,8 +136,16 @@ def classify (s : State) (drain : Bool) (op : Op) (mo : IObs) (io : IObs) : Opti
     else if (io.idle.map (fun p => p.2.length)).sum < (mo.idle.map (fun p => p.2.length)).sum
       then some "C04/shared-connection-unavailable" else none
   | _ =>
+    -- the model discarded a connection because the peer had closed it; the implementation did not, and
+    -- one of the queued waiters is gone from its queue instead: the closed connection was passed on
+    let s' := (step s op).1
+    let discardedClosed := (s'.dropped.take (s'.dropped.length - s.dropped.length)).any fun c =>
+      match s'.conns c with | some k => !k.isOpen | none => false
+    let queued := fun (o : IObs) => (o.waiting.map fun w => w.2.1).sum
+    if discardedClosed && io.drops < mo.drops && queued io < queued mo && mo.idle == io.idle
+      then some "C05/closed-connection-passed-on"
     -- idle/waiting bookkeeping differs
-    if mo.idle != io.idle && (io.idle.map (fun p => p.2.length)).sum < (mo.idle.map (fun p => p.2.length)).sum
+    else if mo.idle != io.idle && (io.idle.map (fun p => p.2.length)).sum < (mo.idle.map (fun p => p.2.length)).sum
       then some "C14/connection-not-returned"
     else none
 
